@@ -43,6 +43,7 @@ def main():
         i, n = argv[argv.index("--shard") + 1].split("/")
         shard = (int(i), int(n))
         del argv[argv.index("--shard"):argv.index("--shard") + 2]
+    argv = [a for a in argv if a != "--target-only"]
     want = [a for a in argv if not a.startswith("-")]
     names = sorted(d for d in os.listdir(sd) if os.path.isfile(os.path.join(sd, d, "patch.diff")))
     if want:
@@ -68,7 +69,14 @@ def main():
             extract.extract("lib", repo=d, cache=False)
             mutants._FACTS_CACHED[d] = True
             row = {}
-            for pid in pids:
+            target_only = "--target-only" in sys.argv
+            tgt0 = json.load(open(os.path.join(sd, name, "meta.json"))).get("property", name[:3])
+            if target_only:
+                # regression mode: only the targeted property's module is run; the other properties' entries of the last full
+                # matrix are kept as they were
+                full = json.load(open(os.path.join(sd, "MATRIX.json"))) if os.path.exists(os.path.join(sd, "MATRIX.json")) else {}
+                row = {k: v for k, v in full.get(name, {}).get("reported_by", {}).items() if k != tgt0}
+            for pid in ([tgt0] if target_only else pids):
                 fs = mutants.run_rules(pid, d)
                 if fs:
                     row[pid] = sorted({f2.inst + " " + f2.kind for f2 in fs})
